@@ -114,7 +114,6 @@ inductive Part | subscriber | discovery | announcer
 deriving DecidableEq, Repr, Inhabited
 
 inductive Cb
-  | handleOffer (e : SDEntry) (a : Addr)
   | connLost (p : Part)
   | expiredSvc (a : Addr) (k : SvcKey)
   | expiredSub (inst : Nat) (a : Addr) (k : SubKey)
@@ -682,7 +681,7 @@ def sdMessageReceived (s : Stack) (m : SDHeader) (a : Addr) (mc : Bool) : Stack 
   if !m.flagUnicast then s else
   m.entries.foldl (fun s e =>
     match e.ty with
-    | .offer => s.callSoon (.handleOffer e a)
+    | .offer => s.handleOffer e a
     | .subscribeAck => s
     | .find => s.handleFind e a mc
     | .subscribe => if mc then s else s.handleSubscribe e a) s
@@ -713,7 +712,6 @@ def connectionLost (s : Stack) : Stack :=
 
 /-- interpret one callback -/
 def runCb (s : Stack) : Cb → Stack
-  | .handleOffer e a => s.handleOffer e a
   | .connLost .subscriber => s.subscriberStop false
   | .connLost .discovery => s.foundStopAll
   | .connLost .announcer => s.announcerStop
